@@ -84,6 +84,10 @@ def hy_commit():
 
 def write_evidence(pid, doc):
     d = os.path.join(VERIF, "evidence")
+    if repo_path() != "/repo":
+        # self-validation against a patched scratch copy (tools/selftest.py, seedtest.py):
+        # evidence/ only ever describes runs against /repo itself
+        d = os.path.join(VERIF, "evidence", "scratch-tree")
     os.makedirs(d, exist_ok=True)
     tmp = os.path.join(d, f".{pid}.json.tmp")
     with open(tmp, "w") as f:
